@@ -40,7 +40,11 @@ class FunctionResult:
 
 def verify_function(index, registry, qual, prune_ms=150) -> FunctionResult:
     res = FunctionResult(qual)
-    module, cls, fnode = index.function(qual)
+    try:
+        module, cls, fnode = index.function(qual, registry)
+    except KeyError as e:
+        res.errors.append("cannot extract %s from the current source: %s" % (qual, e))
+        return res
     res.sha = index.sha(module, fnode)
     key = ("%s.%s" % (cls.name, fnode.name)) if cls else fnode.name
     contract = registry.lookup(cls.name if cls else None, fnode.name, module.rel)
